@@ -1,6 +1,7 @@
 package rules
 
 import (
+	"go/ast"
 	"fmt"
 	"go/types"
 	"sort"
@@ -85,7 +86,46 @@ func runC19(c *Ctx) {
 					break
 				}
 			}
+			// a helper that works under its callers' lock: unexported, called only from this package, and
+			// every call site is dominated by a Lock (exclusive if the helper writes) that has not been
+			// released before the call
+			heldByCallers := false
+			if lock == nil && !ast.IsExported(fn.Name()) {
+				sites := p.Callers(fn)
+				heldByCallers = len(sites) > 0
+				for _, cs := range sites {
+					if cs.Caller == nil || cs.Caller.Pkg != fn.Pkg || cs.Kind != "static" {
+						heldByCallers = false
+						break
+					}
+					held := false
+					for _, ci := range AllCalls(cs.Caller) {
+						cn := CalleeName(ci.Common())
+						if _, isDefer := ci.(*ssa.Defer); isDefer {
+							continue
+						}
+						excl := NameMatch(cn, "sync.RWMutex.Lock") || NameMatch(cn, "sync.Mutex.Lock")
+						shared := NameMatch(cn, "sync.RWMutex.RLock")
+						if !(excl || (shared && len(writes) == 0)) || !instrDominates(ci.(ssa.Instruction), cs.Instr) {
+							continue
+						}
+						released, _ := CanReach(PointAfter(ci.(ssa.Instruction)), func(in ssa.Instruction) bool { return in == cs.Instr }, ReachOpts{CutInstr: func(in ssa.Instruction) bool {
+							u, ok := in.(*ssa.Call)
+							return ok && strings.HasSuffix(CalleeName(&u.Call), "nlock")
+						}})
+						if released { // "released" here means: the call is reachable from the lock without passing an Unlock
+							held = true
+						}
+					}
+					if !held {
+						heldByCallers = false
+						break
+					}
+				}
+			}
 			switch {
+			case lock == nil && heldByCallers:
+				detail = ""
 			case lock == nil:
 				detail = "the cache is touched without first taking the mutex"
 			default:
